@@ -159,13 +159,17 @@ def make_np_proxy(real_np, script=None):
         def call(*a, **k):
             log = poolx.CURRENT.get('log')
             ordinal = poolx.CURRENT.get('task_ordinal')
-            if log is not None:
-                log.append((name, tuple(float(x) if isinstance(x, (int, float)) else repr(x) for x in a)))
             if script is not None and ordinal is not None:
                 idx = state['n'].get(ordinal, 0)
                 state['n'][ordinal] = idx + 1
-                return script(ordinal, idx, name, a)
-            return fn(*a, **k)
+                out = script(ordinal, idx, name, a)
+            else:
+                out = fn(*a, **k)
+            if log is not None:
+                # (name, arguments, value returned to the driver)
+                log.append((name, tuple(float(x) if isinstance(x, (int, float)) else repr(x) for x in a),
+                            float(out) if isinstance(out, (int, float)) or getattr(out, 'shape', None) == () else None))
+            return out
         return call
 
     class GenProxy:
